@@ -41,6 +41,30 @@ class SimSourceOSError(SimSourceError, OSError):
     pass
 
 
+class SimSourceEOFError(SimSourceError, EOFError):
+    """(EOFError is how petl's own readers recognise the end of a pickle
+    stream: one coming from a source is a failure, not an end)"""
+
+
+class SimSourceStopIteration(SimSourceError, StopIteration):
+    """A source that fails with StopIteration raised from *inside* its
+    __next__... that is simply its end; so this one is raised by a source
+    whose iterator is a generator, where it surfaces as RuntimeError
+    (PEP 479) - see SimTable._gen."""
+
+
+class SimSourceRuntimeError(SimSourceError, RuntimeError):
+    pass
+
+
+class SimSourceMemoryError(SimSourceError, MemoryError):
+    """A failing allocation while the source produces a row."""
+
+
+class SimSourceAssertionError(SimSourceError, AssertionError):
+    pass
+
+
 class SimSourceAbort(BaseException):
     """A source interrupted by something that is not an Exception
     (KeyboardInterrupt-like): `except Exception` handlers do not see it, only
@@ -56,7 +80,10 @@ SOURCE_ERRORS = {'plain': SimSourceError, 'type': SimSourceTypeError,
                  'value': SimSourceValueError, 'key': SimSourceKeyError,
                  'index': SimSourceIndexError,
                  'attr': SimSourceAttributeError, 'os': SimSourceOSError,
-                 'abort': SimSourceAbort}
+                 'abort': SimSourceAbort, 'eof': SimSourceEOFError,
+                 'runtime': SimSourceRuntimeError,
+                 'memory': SimSourceMemoryError,
+                 'assert': SimSourceAssertionError}
 SOURCE_ERROR_KINDS = sorted(SOURCE_ERRORS)
 
 
